@@ -7,6 +7,8 @@ import (
 	"time"
 
 	plush "github.com/gobuffalo/plush/v5"
+	"github.com/gobuffalo/plush/v5/helpers/debug"
+	"github.com/gobuffalo/plush/v5/helpers/paths"
 	"github.com/gobuffalo/plush/v5/helpers/hctx"
 
 	"verifharness/vrt"
@@ -30,6 +32,7 @@ func init() {
 	vrt.Register("C04_user_functions", UserFunctions)
 	vrt.Register("C04_token_programs", TokenPrograms)
 	vrt.Register("C04_library_helpers", LibraryHelpers)
+	vrt.Register("C04_library_helpers_direct", LibraryHelpersDirect)
 	vrt.Register("C04_nested_render", NestedRender)
 }
 
@@ -94,7 +97,12 @@ func (i *iter) Next() interface{} {
 	return i.n
 }
 
-const nKinds = 46
+// an Iterator through a value-receiver method: a nil *iterV must not have Next called on it
+type iterV struct{ n int }
+
+func (i iterV) Next() interface{} { return nil }
+
+const nKinds = 47
 
 // val: a value of kind k (payloads arbitrary where a payload can matter).
 func val(k int) interface{} {
@@ -193,8 +201,10 @@ func val(k int) interface{} {
 		return (*stringerV)(nil) // nil pointers to types whose String / HTML / Interface methods have value receivers
 	case 44:
 		return (*htmlerV)(nil)
-	default:
+	case 45:
 		return outerE{} // a field promoted through an embedded pointer that is nil
+	default:
+		return (*iterV)(nil)
 	}
 }
 
@@ -401,6 +411,8 @@ type withBoth struct {
 	ID   int
 	Slug string
 }
+type outerBoth struct{ *withBoth }
+type outerID struct{ *withID }
 type pathable struct{}
 
 func (pathable) ToPath() string { return "/p" }
@@ -411,9 +423,41 @@ func (p paramable) ToParam() string { return "x" }
 
 func LibraryHelpers() {
 	ctx := plush.NewContext()
+	a := libraryValue()
+	ctx.Set("a", a)
+	hs := []string{
+		"pathFor(a)", "pathFor([a, a])", "pathFor()", "debug(a)", "inspect(a)", "debug()",
+		"pluralize(a)", "singularize(a)", "capitalize(a)", "camelize(a)", "underscore(a)", "humanize(a)", "titleize(a)", "ordinalize(a)", "dasherize(a)",
+		"env(a)", "envOr(a, a)", "form(a)", "paginator(a)",
+	}
+	h := hs[vrt.Choice(len(hs))]
+	total("<%= "+h+" %>", ctx)
+}
+
+// the helper functions themselves (a call from a template turns a panic of the
+// callee into the call's error; called from Go, as applications also do, nothing does)
+func LibraryHelpersDirect() {
+	a := libraryValue()
+	switch vrt.Choice(3) {
+	case 0:
+		paths.PathFor(a)
+	case 1:
+		paths.PathFor([]interface{}{a, a})
+	default:
+		debug.Debug(a)
+		debug.Inspect(a)
+	}
+	vrt.Cover("done")
+}
+
+func libraryValue() interface{} {
 	var a interface{}
-	k := vrt.Choice(nKinds + 10)
+	k := vrt.Choice(nKinds + 12)
 	switch k - nKinds {
+	case 10:
+		a = outerBoth{} // ID and Slug promoted through an embedded pointer that is nil
+	case 11:
+		a = []interface{}{&outerID{}}
 	case 0:
 		a = withID{ID: vrt.Int()}
 	case 1:
@@ -437,14 +481,7 @@ func LibraryHelpers() {
 	default:
 		a = val(k)
 	}
-	ctx.Set("a", a)
-	hs := []string{
-		"pathFor(a)", "pathFor([a, a])", "pathFor()", "debug(a)", "inspect(a)", "debug()",
-		"pluralize(a)", "singularize(a)", "capitalize(a)", "camelize(a)", "underscore(a)", "humanize(a)", "titleize(a)", "ordinalize(a)", "dasherize(a)",
-		"env(a)", "envOr(a, a)", "form(a)", "paginator(a)",
-	}
-	h := hs[vrt.Choice(len(hs))]
-	total("<%= "+h+" %>", ctx)
+	return a
 }
 
 // a Go helper that renders a snippet through its helper context (help.Render), a
